@@ -255,13 +255,10 @@ theorem extractKWA_no_panic (cmd : List Bytes) (h : isModifierTok (cmd.headD [])
     cases hm
 
 
-theorem head_filter_ne (cmd : List Bytes) (dest : Bytes) (h : cmd.headD [] ≠ dest) (hne : cmd ≠ []) :
-    (cmd.filter fun t => t != dest).headD [] = cmd.headD [] := by
+theorem head_take_append (cmd rest : List Bytes) (hne : cmd ≠ []) : (cmd.take 1 ++ rest).headD [] = cmd.headD [] := by
   cases cmd with
   | nil => exact absurd rfl hne
-  | cons a r =>
-    simp only [List.headD_cons] at h ⊢
-    simp [h]
+  | cons a r => rfl
 
 /-- `setOrErr` around a program without panic -/
 theorem setOrErr_zNoPanic (es : List (Bytes × Val)) (k : Prog Res) (h : k.ZNoPanic) : (setOrErr es k).ZNoPanic := by
@@ -281,28 +278,28 @@ theorem zCombineTail_noPanic (inter store ws : Bool) (dest agg : Bytes) (rows : 
     | (apply setOrErr_zNoPanic; trivial)
 
 theorem handleZCombine_noPanic (inter store : Bool) (c : Ctx) (cmd : List Bytes)
-    (hh : isModifierTok (cmd.headD []) = false) (hd : store = true → cmd.headD [] ≠ cmd.getD 1 []) :
+    (hh : isModifierTok (cmd.headD []) = false) :
     (handleZCombine inter store c cmd).ZNoPanic := by
   have hx2 : ∀ w, extractKWA cmd ≠ .panic w := extractKWA_no_panic cmd hh
-  have hx1 : store = true → ∀ w, extractKWA (cmd.filter (fun t => t != cmd.getD 1 [])) ≠ .panic w := by
-    intro hs w
-    apply extractKWA_no_panic
+  have hx1 : ∀ w, extractKWA (cmd.take 1 ++ (cmd.drop 1).filter (fun t => t != cmd.getD 1 [])) ≠ .panic w := by
+    intro w
     cases cmd with
-    | nil => exact hh
+    | nil => exact extractKWA_no_panic _ hh w
     | cons a r =>
-      rw [head_filter_ne (a :: r) _ (hd hs) (by simp)]
+      apply extractKWA_no_panic
+      rw [head_take_append (a :: r) _ (by simp)]
       exact hh
-  have hx3 : ∀ w, extractKWA (if store = true then cmd.filter (fun t => t != cmd.getD 1 []) else cmd) ≠ .panic w := by
+  have hx3 : ∀ w, extractKWA (if store = true then cmd.take 1 ++ (cmd.drop 1).filter (fun t => t != cmd.getD 1 []) else cmd) ≠ .panic w := by
     intro w
     split
-    · rename_i hs; exact hx1 hs w
+    · exact hx1 w
     · exact hx2 w
   unfold handleZCombine
   repeat' (first
     | trivial
     | exact zCombineTail_noPanic _ _ _ _ _ _
     | exact absurd ‹extractKWA cmd = XRes.panic _› (hx2 _)
-    | exact absurd ‹extractKWA _ = XRes.panic _› (hx1 ‹store = true› _)
+    | exact absurd ‹extractKWA _ = XRes.panic _› (hx1 _)
     | exact absurd ‹extractKWA _ = XRes.panic _› (hx3 _)
     | (refine ⟨fun c s => rfl, fun r => ?_⟩)
     | split
